@@ -22,7 +22,7 @@ TRUSTED_BASE = [
     "the table model and its selection are those of model/EventLog.v (C06)",
     "the model consumes the replica's logs as observed before the upgrade",
 ]
-ASSUMPTIONS = ["attachments (file blobs) are not generated: the account histories have no file secrets (C17 is not built)",
+ASSUMPTIONS = ["one attachment per upgraded client account and one extra attachment-less account per data directory; richer blob histories are C17's",
                "preferences and the server list are not populated by the histories; trusted devices are compared through the device log"]
 
 
@@ -102,6 +102,13 @@ def oracle(case, obs):
     if ukv.get("reopen") != "ok":
         fails.append({"oracle": "reopen_failed", "detail": "the upgraded directory does not open on the database backend: %s" % ukv.get("reopen")})
         return fails
+    ex = next((o for o in obs if o.startswith("extras ")), None)
+    if ex:
+        ekv = dict(x.split("=", 1) for x in ex.split()[1:] if "=" in x)
+        if ekv.get("attachment") not in ("ok", "n/a"):
+            fails.append({"oracle": "attachment_lost", "detail": "the attachment readable before the upgrade is %s after it" % ekv.get("attachment")})
+        if ekv.get("second_account") not in ("ok", "n/a"):
+            fails.append({"oracle": "second_account_lost", "detail": "the second account of the data directory: %s" % ekv.get("second_account")})
     steps, _ = acct.parse(obs)
     hist = [x for x in kv.get("hist", "").split("|") if x]
     n = len(hist)
